@@ -45,6 +45,21 @@ TRUSTED = [
     "/ get_world_size simulated in one process, 'gloo' = 2..3 real processes in real gloo groups with file rendezvous): "
     "every sampler built in a history is compared (stream, len, generator seeds incl. the rank seed, draws) with the "
     "sampler built with the explicit (rank, world size) in the harness process, and replayed in Coq",
+    "ENVIRONMENT of the process (launcher variables RANK / WORLD_SIZE / LOCAL_RANK / SLURM_PROCID / ...): not part of the "
+    "model; half of the generated process-group histories and 5 directed ones per kind run in fresh processes with such "
+    "variables set (see C12's trusted base)",
+    "label REPRESENTATION and dataset interface: the model takes the labels as a list of integers; tied to the code by "
+    "datasets whose getall_class hands out list / numpy array / torch tensor of int64, int32, int16, int8, uint8 (where the "
+    "values fit) and datasets without getall_class (getitem_class sample by sample): every such run is compared with the "
+    "model AND with the run of the same layout, seed and epoch on a list of python ints; narrow dtypes are also run on "
+    "layouts with n * (C - 1) beyond the dtype's range (uint8 / int8: n 33..400, int16: ~100 classes, n = 400; thorough "
+    "n ..1200); int32 overflow (n * C > 2^31) is out of reach of a test and not covered",
+    "CONSTRUCTION HISTORIES on one dataset object (model: a sampler is a function of the labels at ITS construction): a "
+    "dataset (with / without getall_class) holds labels B; ClassBalancedSampler / SemiSampler / getall_as_tensor is "
+    "applied to it and iterated; the labels are changed in place (list slice assignment; same or other length); the "
+    "case's sampler is built on the same object for every rank and compared (stream, len, seeds, draws) with the "
+    "sampler on a pristine dataset of the current labels, and replayed in Coq against the model of the current labels; "
+    "relabelling by REBINDING attributes or through wrappers/other items than 'class' is not generated",
     "runaway guard: a sampler run is abandoned after %g s of process CPU time (ITIMER_VIRTUAL) or %g s wall "
     "(ITIMER_REAL fallback) or %d draws and reported as 'iteration does not return'" % (S.CPU_LIMIT, S.WALL_LIMIT, S.MAX_DRAWS),
     "harness/samplers.py spies (torch.Generator subclass, wrapped randperm/multinomial/Tensor.random_) and rendering",
@@ -53,7 +68,8 @@ TRUSTED = [
     "length // W) is evaluated only and re-stated by the independent Python oracle",
 ]
 ASSUMPTIONS = [
-    "world size W >= 1, rank < W; dataset provides getall_class (list of ints, -1 = unlabeled) and getdim_class",
+    "world size W >= 1, rank < W; dataset provides getdim_class and getall_class (list / ndarray / tensor of an integer "
+    "dtype that holds the labels, -1 = unlabeled) or getitem_class",
     "class-balanced: because the last len % W entries are cut off for distributed runs, 'all ranks together hold exactly "
     "samples_per_class per class' holds for the global draw and for the ranks when W divides C*spc; otherwise the ranks "
     "hold a prefix missing (C*spc) mod W < W entries (ranks_union_is_prefix) and every class between "
@@ -70,7 +86,13 @@ RULE = ("cb 35% / semi 40% / weighted 25%; label lists of 2..26 entries (thoroug
         "random rank through 2..5 list(sampler) calls (set_epoch(e'), back to e, no set_epoch in between); 12% of the cases "
         "also carry a process-group history of 3..10 steps (init as rank r of W / destroy / is_available off-on / rank "
         "queries / throwaway samplers / the case's sampler built with default, explicit or mixed rank and world_size), 70% "
-        "simulated in one process, 30% in 2..3 real gloo processes, plus 11 directed schedules per kind; thorough tier "
+        "simulated in one process, 30% in 2..3 real gloo processes, half of them under a launcher's environment, plus 16 "
+        "directed schedules per kind; cb / semi cases: 30% hand out labels as ndarray / tensor of int64..uint8, 12% only "
+        "sample by sample (no getall_class), 20% carry a CONSTRUCTION HISTORY (labels B on the object, sampler A built + "
+        "iterated, relabelled in place to the case's labels with equal / other length, the case's sampler built on the "
+        "same object), plus 68 directed ones (every representation; pseudo-labelling / rotation / longer / shorter x "
+        "getall_class yes / no x A in cb / semi / getall) and 18 (thorough 180) WIDE layouts: narrow label dtype with "
+        "n * (C - 1) beyond its range (n ..400, thorough ..1200); thorough tier "
         "adds a directed family of 12 large layouts (n ~ 500 semi with 2..90 pool wrap-arounds per rank, n ~ 200 "
         "class-balanced with samples_per_class beyond every pool)")
 
@@ -156,6 +178,69 @@ def gen_ops(rng, epoch):
 
 
 PG_FRACTION = 0.12     # share of the cases that also carry a process-group history
+REP_FRACTION = 0.3     # share of the cb / semi cases whose getall_class hands out an array / tensor of some integer dtype
+ITEM_FRACTION = 0.12   # ... whose dataset has no getall_class (sample-wise getitem_class only)
+RELABEL_FRACTION = 0.2  # ... that also carry a construction history on one dataset object (relabelled in place)
+
+
+def with_dataset_dims(rng, c, relabel=RELABEL_FRACTION):
+    """label representation, getall_class present or not, construction history on one relabelled dataset object"""
+    if c["kind"] not in ("cb", "semi"):
+        return c
+    q = rng.random()
+    if q < REP_FRACTION:
+        fits = [r for r in S.REPS[1:] if S.rep_fits(c["classes"], r)]
+        c["rep"] = rng.choice(fits)
+    elif q < REP_FRACTION + ITEM_FRACTION:
+        c["getall"] = False
+    if rng.random() < relabel:
+        if "rep" not in c and rng.random() < 0.6:
+            c["getall"] = False
+        pool = sorted(set(c["classes"]) | ({-1} if S.rep_fits([-1], c.get("rep", "list")) else set()))
+        c["relabel"] = {"before": S.gen_before(rng, c["classes"], pool), "A": rng.choice(["cb", "semi", "semi", "getall"])
+                        if c["kind"] == "semi" else rng.choice(["cb", "cb", "semi", "getall"])}
+    return c
+
+
+def gen_wide(rng, nmax=400, p16=0.13):
+    """label arrays of a NARROW integer dtype on datasets large enough that n * C leaves the dtype's range
+    (uint8: (C-1) * n >= 256, int8: >= 128, int16: >= 32768 with ~100 classes), n up to nmax"""
+    q = rng.random()
+    form = rng.choice(["ndarray", "tensor"])
+    W = rng.choice([1, 1, 2, 3, 4])
+    base = {"seed": rng.randrange(1000), "epoch": rng.choice([None, 0, 2]), "W": W}
+    if q < 0.75:
+        if q < 0.75 - p16:
+            dt = rng.choice(["uint8", "uint8", "int8"])
+            Cn = rng.choice([2, 3, 4, 5, 5, 7])
+            lim = 256 if dt == "uint8" else 128
+            lo = min(nmax, lim // (Cn - 1) + 1)
+            n = rng.randint(lo, max(lo, nmax if rng.random() < 0.3 else min(nmax, 3 * lo)))
+        else:
+            dt, Cn, n = "int16", rng.randint(84, 110), nmax
+            n = max(n, 32768 // (Cn - 1) + 1)
+        skew = rng.choice([1, 2]) if Cn < 20 else 1
+        classes = list(range(Cn)) + [min(Cn - 1, int(rng.random() ** skew * Cn)) for _ in range(n - Cn)]
+        rng.shuffle(classes)
+        # (~100 classes: one permutation per class and pass over its pool - stay below the draw cap of the runaway guard)
+        c = {"kind": "cb", "classes": classes, "dim": Cn, "spc": rng.choice([None, None, 3, 40, 150] if Cn < 20 else [1, 2]),
+             "shuffle": rng.random() < 0.8, **base}
+        # one permutation per class and pass over its pool: stay well below the draw cap of the runaway guard
+        sizes = Counter(classes)
+        if sum(-(-(c["spc"] or max(sizes.values())) // k) for k in sizes.values()) > S.MAX_DRAWS // 2:
+            c["spc"] = 3
+    else:
+        dt = rng.choice(["int8", "int8", "int16"])
+        n = rng.randint(130, nmax)
+        p_unl = rng.choice([0.2, 0.5, 0.8])
+        classes = [-1 if rng.random() < p_unl else rng.randrange(4) for _ in range(n)]
+        classes[0], classes[1] = 0, -1
+        c = {"kind": "semi", "classes": classes, "dim": 4, "L": rng.choice([1, 2, 3]), "U": rng.choice([1, 2, 3]),
+             "mode": rng.choice(["labeled", "unlabeled", "all"]), **base}
+    c["rep"] = form + ":" + dt
+    c["ops"] = [["iter"], ["iter"]] if c["epoch"] is None else [["set", c["epoch"]], ["iter"], ["set", 5], ["iter"]]
+    c["ops_rank"] = W - 1
+    return c
 
 
 def gen_case(rng, big=False, pg=PG_FRACTION):
@@ -168,6 +253,7 @@ def gen_case(rng, big=False, pg=PG_FRACTION):
         c = gen_weighted(rng, big)
     c["ops"] = gen_ops(rng, c["epoch"])
     c["ops_rank"] = rng.randrange(c["W"])
+    with_dataset_dims(rng, c)
     if rng.random() < pg:
         c["pg"] = PG.gen_pg(rng, c["kind"], c["epoch"])
     return c
@@ -215,8 +301,45 @@ def gen_large(rng):
 def gen_cases(rng, tier):
     head = gen_directed_pg(rng)
     if tier == "quick":
-        return head + [gen_case(rng) for _ in range(1000)]
-    return head + [gen_case(rng) for _ in range(4500)] + [gen_case(rng, big=True) for _ in range(1500)] + gen_large(rng)
+        return spread(head + gen_directed_ds(rng) + [gen_case(rng) for _ in range(800)],
+                      [gen_wide(rng, p16=0.0) for _ in range(16)] + [gen_wide(rng, p16=0.75) for _ in range(2)])
+    return spread(head + gen_directed_ds(rng) + [gen_case(rng) for _ in range(4500)]
+                  + [gen_case(rng, big=True) for _ in range(1500)],
+                  [gen_wide(rng, 400) for _ in range(150)] + [gen_wide(rng, 1200) for _ in range(30)] + gen_large(rng))
+
+
+def spread(cases, heavy):
+    """the large layouts evenly among the others (the Coq evaluation runs in shards of consecutive cases)"""
+    step = max(1, len(cases) // (len(heavy) + 1))
+    out = []
+    for i, c in enumerate(cases):
+        out.append(c)
+        if (i + 1) % step == 0 and heavy:
+            out.append(heavy.pop())
+    return out + heavy
+
+
+def gen_directed_ds(rng):
+    """the plain dataset histories: every representation on one small layout per kind; a dataset with / without
+    getall_class relabelled in place (same length: pseudo-labelling round; other length) between two samplers"""
+    out = []
+    cb = {"kind": "cb", "classes": [0, 1, 2, 1, 0, 2, 2, 0, 1, 1], "dim": 3, "spc": rng.choice([None, 5]), "shuffle": True,
+          "seed": rng.randrange(1000), "epoch": 1, "W": 2}
+    semi = {"kind": "semi", "classes": [0, -1, 1, -1, -1, 2, 0, -1, 3, -1, -1], "dim": 4, "L": 1, "U": 2,
+            "mode": rng.choice(["labeled", "unlabeled", "all"]), "seed": rng.randrange(1000), "epoch": 1, "W": 2}
+    for base in (cb, semi):
+        for r in S.REPS[1:]:
+            if S.rep_fits(base["classes"], r):
+                out.append({**base, "rep": r})
+        out.append({**base, "getall": False})
+        n = len(base["classes"])
+        pseudo = [c if i % 3 else -1 for i, c in enumerate(base["classes"])]        # some labels were -1 before
+        swapped = base["classes"][1:] + base["classes"][:1]
+        for getall in (False, True):
+            for before in (pseudo, swapped, base["classes"] + [0, -1], base["classes"][:n - 2]):
+                for A in ("cb", "semi", "getall"):
+                    out.append({**base, "getall": getall, "relabel": {"before": before, "A": A}})
+    return out
 
 
 def search_cases(rng, tier):
@@ -237,11 +360,29 @@ def search_cases(rng, tier):
             yield {"kind": "weighted", "n": n, "weights": [1.0] * n, "size": None, "seed": 0, "epoch": 0, "W": W}
     for c in gen_directed_pg(rng):
         yield c
+    for c in gen_directed_ds(rng):
+        yield c
     for _ in range(20000):
-        yield gen_case(rng, big=rng.random() < 0.3, pg=0.4)
+        yield gen_wide(rng) if rng.random() < 0.1 else gen_case(rng, big=rng.random() < 0.3, pg=0.4)
 
 
 def shrink(c):
+    if c.get("relabel"):
+        yield {k: v for k, v in c.items() if k != "relabel"}
+        rl = c["relabel"]
+        if rl["A"] != "getall":
+            yield {**c, "relabel": {**rl, "A": "getall"}}
+        if len(rl["before"]) != len(c["classes"]):
+            yield {**c, "relabel": {**rl, "before": (rl["before"] + c["classes"])[:len(c["classes"])]}}
+        for i in range(min(len(rl["before"]), len(c["classes"]))):      # fewer entries differ
+            if rl["before"][i] != c["classes"][i]:
+                yield {**c, "relabel": {**rl, "before": rl["before"][:i] + [c["classes"][i]] + rl["before"][i + 1:]}}
+    if c.get("rep", "list") != "list":
+        yield {k: v for k, v in c.items() if k != "rep"}
+        if c["rep"].startswith("tensor"):
+            yield {**c, "rep": "ndarray:" + c["rep"].split(":")[1]}
+    if c.get("getall") is False and not c.get("relabel"):
+        yield {k: v for k, v in c.items() if k != "getall"}
     if c.get("pg"):
         yield {k: v for k, v in c.items() if k != "pg"}
         for cand in PG.shrink_pg(c["kind"], c["pg"]):
@@ -262,11 +403,21 @@ def shrink(c):
         yield {**c, "W": 1, "ops_rank": 0}
     if c["kind"] in ("cb", "semi") and len(c["classes"]) > 60:       # large layouts: halves first
         h = len(c["classes"]) // 2
-        yield {**c, "classes": c["classes"][:h]}
-        yield {**c, "classes": c["classes"][h:]}
+        if not c.get("relabel"):
+            yield {**c, "classes": c["classes"][:h]}
+            yield {**c, "classes": c["classes"][h:]}
+            q = len(c["classes"]) // 8
+            for j in range(8):
+                yield {**c, "classes": c["classes"][:j * q] + c["classes"][(j + 1) * q:]}
     if c["kind"] in ("cb", "semi"):
         for i in range(len(c["classes"])):
-            yield {**c, "classes": c["classes"][:i] + c["classes"][i + 1:]}
+            cand = {**c, "classes": c["classes"][:i] + c["classes"][i + 1:]}
+            if c.get("relabel") and i < len(c["relabel"]["before"]):
+                b = c["relabel"]["before"]
+                cand["relabel"] = {**c["relabel"], "before": b[:i] + b[i + 1:]}
+                if cand["relabel"]["before"] == cand["classes"]:
+                    continue
+            yield cand
     if c["kind"] == "cb":
         if c["spc"] not in (None, 1):
             yield {**c, "spc": 1}
@@ -361,6 +512,13 @@ def run_impl(case):
             obs["fresh"][str(ep)] = {"stream": f["stream"], "result": f["result"]}
     if case["kind"] == "semi":
         obs["swap"] = swap_example()
+    # label representation: the int64-list run of the same layout, seed and epoch
+    if case.get("rep", "list") != "list" or case.get("getall") is False:
+        plain = {k: v for k, v in case.items() if k not in ("rep", "getall")}
+        obs["rep_ref"] = [run_rank(plain, r, W) for r in range(W)]
+    # construction history on one dataset object that is relabelled in place
+    if case.get("relabel"):
+        obs["relabel"] = S.run_relabel_guarded(case, W)
     # samplers built with default rank / world_size arguments in processes with a process-group history
     if case.get("pg"):
         obs["pg"] = PG.run_pg(case, case["pg"], run_rank)
@@ -429,6 +587,16 @@ def oracle(case, obs):
     if "harness_exception" in obs:
         return "harness exception: " + obs["harness_exception"] + obs.get("tb", "")
     msg = oracle0(case, obs)
+    if msg is None and obs.get("rep_ref") is not None:
+        for r, (o, ref) in enumerate(zip(obs["ranks"], obs["rep_ref"])):
+            if not S.same_run(o, ref):
+                how = ("handed out sample by sample (no getall_class)" if case.get("getall") is False
+                       else "handed out by getall_class as " + case["rep"])
+                return (f"rank {r}: the epoch depends on the REPRESENTATION of the labels: labels {how}: len {o['len']}, "
+                        f"stream {o['stream']} ({o['result']}); the same labels as a list of python ints: len {ref['len']}, "
+                        f"stream {ref['stream']} ({ref['result']})")
+    if msg is None and case.get("relabel"):
+        msg = S.oracle_relabel(case, obs)
     if msg is None and case.get("pg"):
         msg = PG.oracle_pg(case, case["pg"], obs.get("pg") or {"error": "history not run (a rank ran away)"})
     return msg
@@ -688,12 +856,30 @@ def coq_case(case, obs):
             hs.append(C("HSet", int(op[1])) if op[0] == "set" else C("HIter", Raw(coq(coq_rank(r)))))
     hist = (Nat(case.get("ops_rank", 0)), Raw("[" + "; ".join(str(h) for h in hs) + "]"))
     pgs = PG.coq_pgs(case["pg"], obs["pg"], coq_rank, S.CODE) if case.get("pg") and obs.get("pg") else []
+    if case.get("relabel") and obs.get("relabel"):
+        # the samplers built on the relabelled object: the model knows the CURRENT labels only
+        for r, rec in enumerate(obs["relabel"]["ranks"]):
+            if rec["result"] in S.CODE and rec["result"] != "RUNAWAY":
+                pgs.append(Raw(coq((Raw("[]"), Opt(Nat(r)), Opt(Nat(case["W"])), int(case["epoch"] or 0),
+                                    Raw(coq(coq_rank(rec)))))))
     return coq((coq_cfg(case), [coq_rank(o) for o in obs["ranks"]], S.nats(obs["G"]), hist, pgs))
 
 
 def features(case, obs):
     k = case["kind"]
     yield "kind=" + k
+    if k in ("cb", "semi"):
+        yield "labels:representation=%s" % ("getitem_class only" if case.get("getall") is False else case.get("rep", "list"))
+        if case.get("rep", "list") != "list":
+            lo, hi = S.INT_RANGE[case["rep"].split(":")[1]]
+            Cn = max(2, case["dim"])
+            yield "labels:%s:n*(C-1) beyond the dtype=%s" % (k, len(case["classes"]) * (Cn - 1) > hi)
+        if case.get("relabel"):
+            rl = case["relabel"]
+            yield "relabel:getall_class=%s,A=%s,same length=%s" % (case.get("getall", True), rl["A"],
+                                                                   len(rl["before"]) == len(case["classes"]))
+            if obs.get("relabel"):
+                yield "relabel:A result=" + obs["relabel"]["A"].split(":")[0]
     if case.get("ops"):
         eps = iter_epochs(case["ops"])
         yield "ops:iterated again without set_epoch=%s" % any(
